@@ -87,7 +87,7 @@ func handle(req sandbox.Request) sandbox.Reply {
 	if _, err := naga.Validate(m); err != nil {
 		rep.Err = "validate: " + err.Error()
 	}
-	runBackends(m, alt)
+	runBackends(m, alt, req.API != "all-nodxil")
 	rep.Stage = "backends"
 	rep.OK = true
 	return rep
@@ -104,7 +104,7 @@ func setErr(rep *sandbox.Reply, err error) {
 	}
 }
 
-func runBackends(m *ir.Module, alt bool) {
+func runBackends(m *ir.Module, alt bool, withDXIL bool) {
 	so := spirv.Options{Version: spirv.Version1_3}
 	ho := hlsl.DefaultOptions()
 	ho.FakeMissingBindings = true
@@ -130,7 +130,9 @@ func runBackends(m *ir.Module, alt bool) {
 	for _, ep := range m.EntryPoints {
 		_, _, _ = glsl.Compile(m, glsl.Options{LangVersion: gv, EntryPoint: ep.Name})
 	}
-	_, _ = dxil.Compile(m, do)
+	if withDXIL {
+		_, _ = dxil.Compile(m, do)
+	}
 }
 
 // ---------------------------------------------------------------------------
@@ -464,29 +466,29 @@ var amplifiers = []struct {
 	}},
 	{"call-chain", 30, func(n int) string {
 		var b strings.Builder
-		b.WriteString("fn f0() -> i32 { return 1; }\n")
+		b.WriteString("fn fq0() -> i32 { return 1; }\n")
 		for i := 1; i <= n; i++ {
-			fmt.Fprintf(&b, "fn f%d() -> i32 { return f%d(); }\n", i, i-1)
+			fmt.Fprintf(&b, "fn fq%d() -> i32 { return fq%d(); }\n", i, i-1)
 		}
 		return b.String()
 	}},
 	{"call-diamond", 48, func(n int) string {
 		// every helper calls the previous one twice: 2^n paths through a graph of n nodes
 		var b strings.Builder
-		b.WriteString("fn f0() -> i32 { return 1; }\n")
+		b.WriteString("fn fq0() -> i32 { return 1; }\n")
 		for i := 1; i <= n; i++ {
-			fmt.Fprintf(&b, "fn f%d() -> i32 { return f%d() + f%d(); }\n", i, i-1, i-1)
+			fmt.Fprintf(&b, "fn fq%d() -> i32 { return fq%d() + fq%d(); }\n", i, i-1, i-1)
 		}
-		fmt.Fprintf(&b, "@group(0) @binding(0) var<storage, read_write> o: i32;\n@compute @workgroup_size(1) fn main() { o = f%d(); }\n", n)
+		fmt.Fprintf(&b, "@group(0) @binding(0) var<storage, read_write> o: i32;\n@compute @workgroup_size(1) fn main() { o = fq%d(); }\n", n)
 		return b.String()
 	}},
 	{"call-diamond-global", 52, func(n int) string {
 		var b strings.Builder
-		b.WriteString("@group(0) @binding(0) var<storage, read_write> o: i32;\nvar<private> p: i32;\nfn f0() -> i32 { p += 1; return o; }\n")
+		b.WriteString("@group(0) @binding(0) var<storage, read_write> o: i32;\nvar<private> p: i32;\nfn fq0() -> i32 { p += 1; return o; }\n")
 		for i := 1; i <= n; i++ {
-			fmt.Fprintf(&b, "fn f%d() -> i32 { return f%d() + f%d(); }\n", i, i-1, i-1)
+			fmt.Fprintf(&b, "fn fq%d() -> i32 { return fq%d() + fq%d(); }\n", i, i-1, i-1)
 		}
-		fmt.Fprintf(&b, "@compute @workgroup_size(1) fn main() { o = f%d(); }\n", n)
+		fmt.Fprintf(&b, "@compute @workgroup_size(1) fn main() { o = fq%d(); }\n", n)
 		return b.String()
 	}},
 	{"let-diamond", 22, func(n int) string {
@@ -634,6 +636,11 @@ func TestPropInputs(t *testing.T) {
 		if skipKnown(in) {
 			ev.Class("skipped-known-signature")
 			return
+		}
+		if strings.HasPrefix(in.Kind, "amp:call-diamond") && in.API == "all" && ev.Excluded("c10.dxil-inline-exponential") {
+			// open finding C10-5: dxil.Compile inlines every helper, a diamond call graph of n
+			// functions becomes 2^n copies; the other stages and backends are still judged
+			in.API = "all-nodxil"
 		}
 		var ok bool
 		var msg string
